@@ -147,6 +147,7 @@ Proof.
   - destruct (w_conn w); [apply wq_log, wq_refl|]. apply wq_log.
     eapply wq_step; [wsimpl; apply SS_setpid | reflexivity | reflexivity].
     pose proof (N.mod_upper_bound pid 65536 ltac:(lia)). destruct (N.eqb_spec (pid mod 65536) 0); lia.
+  - apply wq_log. apply wq_same. split; reflexivity.
 Qed.
 
 Lemma step_action_wq : forall w a, wq w (step_action w a).
